@@ -41,6 +41,17 @@ func init() {
 	}
 }
 
+func c19Tag(s string) uint32 { return uint32(s[0])<<24 | uint32(s[1])<<16 | uint32(s[2])<<8 | uint32(s[3]) }
+
+var c19StdTags = func() []uint32 {
+	var out []uint32
+	for _, s := range []string{"head", "hhea", "maxp", "OS/2", "hmtx", "cmap", "loca", "glyf", "name", "post", "CFF ", "CFF2", "GDEF", "GSUB",
+		"GPOS", "kern", "DSIG", "fvar", "gvar", "vhea", "vmtx", "bhed", "ttcf", "OTTO", "true", "wOFF"} {
+		out = append(out, c19Tag(s))
+	}
+	return out
+}()
+
 func c19Gen(r *vh.Rand, tier string, n int, emit func(any)) {
 	// exhaustive part: one table of every length 0..9 with every spare capacity 0..4, then
 	// table counts 0..40 (header fields), then random lists.
@@ -56,6 +67,25 @@ func c19Gen(r *vh.Rand, tier string, n int, emit func(any)) {
 		}
 		emit(c19Input{Tables: ts})
 	}
+	// the tags of real fonts (a writer may treat some of them specially, e.g. 'head' and its checkSumAdjustment):
+	// every standard tag alone with 0, 11, 12, 16 and 54 non-zero bytes, and all of them together
+	var all []c19Table
+	for _, tg := range c19StdTags {
+		for _, l := range []int{0, 11, 12, 16, 54} {
+			c := r.Bytes(l)
+			for i := range c {
+				c[i] |= 1
+			}
+			emit(c19Input{Tables: []c19Table{{Tag: tg, Content: c, Spare: r.Bytes(l % 3)}}})
+		}
+		c := r.Bytes(r.Range(12, 40))
+		for i := range c {
+			c[i] |= 0x10
+		}
+		all = append(all, c19Table{Tag: tg, Content: c, Spare: r.Bytes(r.Range(0, 3))})
+	}
+	sort.SliceStable(all, func(a, b int) bool { return all[a].Tag < all[b].Tag })
+	emit(c19Input{Tables: all})
 	for i := 0; i < n; i++ {
 		k := r.Range(0, 6)
 		if r.Chance(15) {
@@ -69,7 +99,9 @@ func c19Gen(r *vh.Rand, tier string, n int, emit func(any)) {
 		}
 		for j := 0; j < k; j++ {
 			var tag uint32
-			switch r.Intn(4) {
+			switch r.Intn(5) {
+			case 4:
+				tag = c19StdTags[r.Intn(len(c19StdTags))]
 			case 0:
 				tag = uint32(r.Uint32())
 			case 1:
